@@ -108,6 +108,61 @@ var c20Helpers = []c20Helper{
 		return ""
 	}},
 	{"ItemsEqual(x,x)", []string{"list", "prop"}, func(it ap.Item) string { _ = ap.ItemsEqual(it, it); return "" }},
+	// equality treats the nil-like item as nil in either operand: the holder equals its twin that holds the untyped nil in the same
+	// places (both orders), and comparing it with a twin that holds real values there is just a comparison, in both orders
+	{"ItemsEqual(x,twins)", []string{"prop"}, func(it ap.Item) string {
+		twin := func(with ap.Item) ap.Item {
+			y := vocab.CloneItem(it)
+			sv, ok := vocab.StructOf(y)
+			src, _ := vocab.StructOf(it)
+			if !ok {
+				return nil
+			}
+			nilLike := func(v ap.Item) bool {
+				if v == nil {
+					return true
+				}
+				rv := reflect.ValueOf(v)
+				return rv.Kind() == reflect.Ptr && rv.IsNil()
+			}
+			for _, f := range vocab.Fields(sv.Type()) {
+				switch f.Kind {
+				case vocab.KItem:
+					orig := src.Field(f.Index)
+					if !orig.IsNil() && nilLike(orig.Interface().(ap.Item)) || orig.IsNil() && with != nil && false {
+						w := with
+						sv.Field(f.Index).Set(reflect.Zero(sv.Field(f.Index).Type()))
+						if w != nil {
+							sv.Field(f.Index).Set(reflect.ValueOf(&w).Elem())
+						}
+					}
+				case vocab.KItems:
+					l := src.Field(f.Index).Interface().(ap.ItemCollection)
+					nl := make(ap.ItemCollection, len(l))
+					for i, m := range l {
+						nl[i] = m
+						if nilLike(m) {
+							nl[i] = with
+						}
+					}
+					if l != nil {
+						sv.Field(f.Index).Set(reflect.ValueOf(nl))
+					}
+				}
+			}
+			return y
+		}
+		withNil, withReal := twin(nil), twin(ap.IRI("https://example.com/a-real-value"))
+		if withNil == nil {
+			return ""
+		}
+		if !ap.ItemsEqual(it, withNil) || !ap.ItemsEqual(withNil, it) {
+			return "the holder is not equal to its twin that holds the untyped nil in the same places"
+		}
+		_ = ap.ItemsEqual(it, withReal)
+		_ = ap.ItemsEqual(withReal, it)
+		return ""
+	}},
 	c20On("OnObject", func(it ap.Item, f func(*ap.Object) error) error { return ap.OnObject(it, f) }),
 	c20On("OnActor", func(it ap.Item, f func(*ap.Actor) error) error { return ap.OnActor(it, f) }),
 	c20On("OnActivity", func(it ap.Item, f func(*ap.Activity) error) error { return ap.OnActivity(it, f) }),
